@@ -224,3 +224,69 @@ def zero_state_payload(cls: bytes, mid: bytes, n: int, block: int, fill: int = 0
 
 
 MAGIC_CHECKSUMS = [b"\r\n", b"\n\r", b"\x00\x00", b"\xff\xff", b"\xb5\x62", b"$G", b"\xd3\x00", b"\n\n", b"*\r"]
+
+
+def crc32_twin(prefix: bytes, payload: bytes, p: int = 0):
+    """A different payload of the same length such that zlib.crc32(prefix + payload) is
+    unchanged (CRC-32 is affine over GF(2): flip one bit at byte p and solve the 32
+    bits of the last four bytes).  None when the payload is shorter than 5 bytes."""
+    import zlib
+
+    n = len(payload)
+    if n < 5:
+        return None
+    p %= n - 4
+    total = len(prefix) + n
+    zero = zlib.crc32(bytes(total))
+
+    def lin(delta: bytes) -> int:
+        return zlib.crc32(delta) ^ zero
+
+    def unit(byte_index, bit):
+        d = bytearray(total)
+        d[len(prefix) + byte_index] = 1 << bit
+        return bytes(d)
+
+    target = lin(unit(p, 0))
+    cols = [lin(unit(n - 4 + j // 8, j % 8)) for j in range(32)]
+    # solve sum_j y_j * cols[j] == target over GF(2)
+    rows = [(sum(((cols[j] >> i) & 1) << j for j in range(32)), (target >> i) & 1) for i in range(32)]
+    piv = []
+    for col in range(32):
+        r = next((k for k in range(len(piv), 32) if (rows[k][0] >> col) & 1), None)
+        if r is None:
+            continue
+        rows[len(piv)], rows[r] = rows[r], rows[len(piv)]
+        pr = rows[len(piv)]
+        for k in range(32):
+            if k != len(piv) and (rows[k][0] >> col) & 1:
+                rows[k] = (rows[k][0] ^ pr[0], rows[k][1] ^ pr[1])
+        piv.append(col)
+    y = 0
+    for k, col in enumerate(piv):
+        if rows[k][1]:
+            y |= 1 << col
+    out = bytearray(payload)
+    out[p] ^= 1
+    for j in range(32):
+        if (y >> j) & 1:
+            out[n - 4 + j // 8] ^= 1 << (j % 8)
+    out = bytes(out)
+    if out == payload or zlib.crc32(prefix + out) != zlib.crc32(prefix + payload):
+        return None
+    return out
+
+
+def adler_twin(payload: bytes, i: int = 0):
+    """A different payload of the same length with the same Adler-32 (and the same
+    Fletcher-8) checksum: +1, -2, +1 on three consecutive bytes without any wrap."""
+    n = len(payload)
+    for k in range(max(0, n - 2)):
+        j = (i + k) % (n - 2)
+        if payload[j] <= 254 and payload[j + 1] >= 2 and payload[j + 2] <= 254:
+            b = bytearray(payload)
+            b[j] += 1
+            b[j + 1] -= 2
+            b[j + 2] += 1
+            return bytes(b)
+    return None
